@@ -1226,6 +1226,11 @@ def check_presence(case):
             if defect == "none":
                 raise Violation("verify_play refused a play with vars, exclusion list and signature: %s" % e, play=cp)
             return {"nontrivial": True, "labels": labels + ["refused"], "key": [defect, cp]}
+        except Exception as e:  # noqa
+            if defect == "none":
+                raise
+            raise Violation("verify_play must answer defect %s with a PlaybookVerificationError but raised %s: %s"
+                            % (defect, type(e).__name__, e), play=cp)
     if defect != "none":
         raise Violation("verify_play accepted a play with defect %s (must be a verification error)" % defect, play=cp)
     result, digest = res
@@ -1428,7 +1433,7 @@ def selftest():
 SUBS = [
     Sub("exhaustive", check_pair, custom=exhaustive, workers_quick=1, workers_thorough=1, budget_quick=60,
         budget_thorough=600),
-    Sub("digest", check_pair, strategy=strat_digest, quick=1200, thorough=12000, workers_quick=4, workers_thorough=16),
+    Sub("digest", check_pair, strategy=strat_digest, quick=1000, thorough=12000, workers_quick=4, workers_thorough=16),
     Sub("exclusion", check_pair, strategy=strat_exclusion, quick=400, thorough=4000, workers_quick=2, workers_thorough=8),
     Sub("presence", check_presence, strategy=strat_presence, quick=250, thorough=3000, workers_quick=2, workers_thorough=8),
     Sub("verify", check_verify, strategy=strat_verify, quick=120, thorough=2000, workers_quick=4, workers_thorough=16),
